@@ -124,4 +124,47 @@ def jobs(prog, tier):
         for mode in ('Server', 'Client'):
             for nseg in segs:
                 js.append(('ss::tcp::decode[N=%d,%s,%s,segments=%d]' % (N, kind, mode, nseg), make_ss_tcp_job(N, kind, mode, tier, nseg), 1500))
+    for (chunk, padding) in c05.VMESS_COMBOS:
+        for side in ('server', 'client'):
+            sec = 'Aes128Gcm' if (chunk, side) != ('Auth', 'client') else 'Chacha20Poly1305'
+            for nseg in segs:
+                js.append(('vmess::decode_payload[%s,%s,%s,%s,segments=%d]' % (sec, chunk, padding, side, nseg), make_vmess_body_job(sec, chunk, padding, side, tier, nseg), 1500))
+    for (chunk, padding) in (('Shake', 'Shake'), ('Auth', 'Shake'), ('Plain', 'Empty')):
+        for nseg in segs:
+            js.append(('vmess::decode_packet[Aes128Gcm,%s,%s,server,segments=%d]' % (chunk, padding, nseg), make_vmess_body_job('Aes128Gcm', chunk, padding, 'server', tier, nseg, packet=True), 1500))
     return js
+
+
+def make_vmess_body_job(security, chunk, padding, side, tier, nseg, packet=False):
+    def job(ctx):
+        K = c05.K_of(tier)
+        ex, p0, keys = c05.vmess_setup(ctx, security, chunk, padding, side, 'exact', 3 * K + 6)
+        req, resp = c05.vmess_streams(security, chunk, padding, keys, K)
+        genuine = req if side == 'server' else resp
+        src = genuine.realize()
+        fn = ctx.prog.find_impl_fn('AEADBodyCodec', 'decode_packet' if packet else 'decode_payload')
+        ex.inputs = {'src': src}
+        ex.inputs.update(c05.payload_inputs('chunk', genuine))
+        for k in range(genuine.draws + 2):
+            ex.inputs['shake%d' % k] = (wire.shake_draw(k), 'u16')
+        pcs = genuine.constraints + genuine.layout
+        rp = c05.framed_spec('vmess_body', {'security': security, 'chunk': chunk, 'padding': padding, 'side': side, 'packet': packet}, 'all_delivered',
+                             [['chunk%d' % i for i in range(K)]])
+        results = c05.drive(ex, fn, [Ref('#codec'), Ref('#src'), Ref('#sess')], {'#src': src}, pcs, {'sealed': list(genuine.entries)}, 3 * nseg + 3 * K + 4, c05.opt_item, nseg=nseg, start=p0)
+        site = fn.name + '@framed'
+        nquiet = 0
+        for p, rel, end in results:
+            ctx.absorb(ex, [p])
+            if end == 'calls':
+                ctx.out.inconclusive.append('decode call bound reached')
+            elif end == 'err':
+                ctx.prove(ex, p, F, 'a valid stream is refused with an error in some segmentation', site, replay=rp)
+            elif end == 'quiet':
+                nquiet += 1
+                if packet:
+                    # datagrams: one item per chunk, never merged or split
+                    ctx.prove(ex, p, T if len(rel) == K else F, 'datagram boundaries are not preserved (%d items for %d datagrams)' % (len(rel), K), site, replay=rp)
+                prove_all(ctx, ex, p, rel, genuine.payloads, 'a valid stream has completely arrived but not all of its content is released (stall or loss) in some segmentation', site, rp)
+        ctx.out.vacuity = [('some run ends with the transport quiet', nquiet > 0)]
+        ctx.out.samples.append({'decoder': fn.name, 'options': [security, chunk, padding, side], 'segments': nseg, 'runs': len(results)})
+    return job
